@@ -326,7 +326,7 @@ def _rand_timeline(rng, alphabet, hot=True):
 
 def gen_nat_case(rng, weights=None):
     names = sorted(CATALOGUE_NAMES)
-    entry = rng.choices(names, weights=[(weights or {}).get(n, 1) for n in names])[0] if rng.random() < 0.88 else "subject:" + rng.choice(SUBJECTS)
+    entry = rng.choices(names, weights=[(weights or {}).get(n, 1) for n in names])[0] if rng.random() < 0.75 else "subject:" + rng.choice(SUBJECTS)
     zero = rng.choice(ZEROISH)
     pool = [i for i in range(len(FALSY)) if i not in ZEROISH or i == zero]
     alphabet = rng.sample(pool, rng.choice([1, 2, 3, 4]))
@@ -342,21 +342,38 @@ def gen_nat_case(rng, weights=None):
     case = {"op": "nat", "entry": entry, "alphabet": alphabet, "P": P,
             "srcs": [_rand_timeline(rng, alphabet), _rand_timeline(rng, alphabet), _rand_timeline(rng, alphabet, hot=False)]}
     if entry.startswith("subject:"):
-        script = []
-        nobs = 0
-        for _ in range(rng.randrange(2, 10)):
+        # observers subscribed BEFORE and AFTER the terminal; the last value before the terminal (and the
+        # BehaviorSubject's initial value) is biased towards the falsy values, None first
+        falsy = [i for i in pool if i < 8]
+        if rng.random() < 0.6 and 0 not in alphabet:
+            alphabet[rng.randrange(len(alphabet))] = 0
+        if rng.random() < 0.5:
+            P["d"] = 0 if rng.random() < 0.5 else rng.choice(falsy)
+        case["alphabet"] = alphabet
+        script, nobs = [], 0
+        for _ in range(rng.choice([0, 1, 1, 2])):
+            script.append(["sub", nobs]); nobs += 1
+        for _ in range(rng.choice([0, 1, 2, 3, 5])):
             r = rng.random()
-            if r < 0.3 and nobs < 3:
-                script.append(["sub", nobs]); nobs += 1
-            elif r < 0.8:
+            if r < 0.7:
                 script.append(["next", rng.choice(alphabet)])
-            elif r < 0.88 and nobs:
+            elif r < 0.85 and nobs < 4:
+                script.append(["sub", nobs]); nobs += 1
+            elif nobs:
                 script.append(["unsub", rng.randrange(nobs)])
-            elif r < 0.95:
-                script.append(["done"])
-            else:
-                script.append(["err"])
-        script.append(["sub", nobs])
+        if rng.random() < 0.75:
+            fa = [i for i in alphabet if i < 8]
+            script.append(["next", 0 if (0 in alphabet and rng.random() < 0.5) else rng.choice(fa or alphabet)])
+        term = rng.choice(["done", "done", "done", "done", "err", None])
+        if term:
+            script.append([term])
+        for _ in range(rng.choice([1, 1, 2])):
+            if rng.random() < 0.3:
+                script.append(["next", rng.choice(alphabet)])
+            script.append(["sub", nobs]); nobs += 1
+        if rng.random() < 0.2:
+            script.append(["done"])
+            script.append(["sub", nobs]); nobs += 1
         case["script"] = script
     return case
 
